@@ -144,6 +144,11 @@ theorem visit_eq_fold (loc : Locator) (t : Tree) (st : St) :
     simp only [visit]
     rw [ihn]
     cases cur <;> simp [itemsIn, topLevel, methodsOf]
+  | alias t s next ihn =>
+    obtain ⟨cds, cur⟩ := st
+    simp only [visit]
+    rw [ihn]
+    cases cur <;> simp [itemsIn, topLevel, methodsOf]
   | other next ihn =>
     obtain ⟨cds, cur⟩ := st
     simp only [visit]
@@ -169,6 +174,7 @@ theorem methodsOf_prune (loc : Locator) (c : Str) (t : Tree) :
     by_cases hg : isMainGuard test <;> simp [prune, methodsOf, hg, ihb, iho, ihn]
   | comp r body next ihb ihn => simp [prune, methodsOf, ihb, ihn]
   | imp n next ihn => simp [prune, methodsOf, ihn]
+  | alias t s next ihn => simp [prune, methodsOf, ihn]
   | other next ihn => simp [prune, methodsOf, ihn]
 
 theorem topLevel_prune (loc : Locator) (t : Tree) :
@@ -182,6 +188,7 @@ theorem topLevel_prune (loc : Locator) (t : Tree) :
     by_cases hg : isMainGuard test <;> simp [prune, topLevel, hg, ihb, iho, ihn]
   | comp r body next ihb ihn => simp [prune, topLevel, ihb, ihn]
   | imp n next ihn => simp [prune, topLevel, ihn]
+  | alias t s next ihn => simp [prune, topLevel, ihn]
   | other next ihn => simp [prune, topLevel, ihn]
 
 end Xdoc.Static
